@@ -1,6 +1,8 @@
 mod ast;
 mod compose;
 mod engines;
+mod families;
+mod stmtfam;
 mod harness;
 mod luarun;
 mod refsylt;
@@ -67,6 +69,10 @@ fn main() {
                 run = Run::new("C17", &tier, "model_checking");
                 engines::c17::run(&mut run);
             }
+            "C01" => {
+                run = Run::new("C01", &tier, "model_checking");
+                engines::c01::run(&mut run);
+            }
             "C03" => {
                 run = Run::new("C03", &tier, "fault_enumeration");
                 engines::faults::run_c03(&mut run);
@@ -121,6 +127,7 @@ fn replay(dir: &str) -> i32 {
         "c17" => engines::c17::replay(case),
         "c13" => engines::c13::replay(case),
         "faults" => engines::faults::replay(case),
+        "c01" => engines::c01::replay(case),
         "c07" => engines::c07::replay(case),
         "c16" | "c16-disk" => engines::c16::replay(case),
         "c15" => engines::c15::replay(case),
